@@ -8,6 +8,10 @@ ROOT = os.path.dirname(os.path.dirname(os.path.abspath(__file__)))
 
 # id -> (engine, category, technique, text, note, design_ref)
 CHECKS = {
+    "C07": dict(engine="enum", category="exploration", design_ref="DESIGN.md section 7 C07",
+        technique="bounded-exhaustive enumeration of decoded layer values x option sets x serialize-buffer histories on the real serializers, comparing outputs across histories",
+        text="Every serializable layer of every packet decoded from the deviation<=1 input neighbourhoods (including packets that ended in an error layer) and from every seed decoded as every first layer is written over its own payload with each of the 4 FixLengths/ComputeChecksums combinations into buffers with different histories (fresh, cleared after holding 3000+3000 bytes of two distinct fill patterns, expected-size hints; all 8 histories for unmodified seeds and in the thorough tier); the layer is decoded anew for every write. No write may panic; all histories must agree on error-or-not and on every output byte; the same value written three times must give identical bytes the second and third time.",
+        note="Layer values built by hand through public fields are not enumerated (only values that decoding produces). Known findings: DHCPv4, DNS, Dot11, SCTPCookieEcho leave requested bytes unwritten; BFD and STP panic on decoded values."),
     "C05": dict(engine="enum", category="exploration", design_ref="DESIGN.md section 7 C05",
         technique="bounded-exhaustive enumeration of inputs x layer subsets x containers x fill orders against a reference derived from packet decoding observed through a wrapper PacketBuilder; all ordered pairs of seeds for stale state",
         text="For every input of the deviation<=1 neighbourhoods of the Ethernet/IPv4/IPv6 fixture seeds: DecodingLayerParser over a 12-member universe (Ethernet, Dot1Q, ARP, IPv4, IPv6, TCP, UDP, ICMPv4, ICMPv6, DNS, Payload, Fragment) in the map, sparse, array and a custom slice container, filled by Put and by AddDecodingLayer, every 11-member subset, IgnoreUnsupported on/off, decoded pre-filled; for unmodified seeds all 4096 subsets and the other first layers. Reference: NewPacket(DecodeStreamsAsDatagrams) observed through a wrapper builder that records which decoder call failed and where SetTruncated was called; expected = leading run of packet layers inside the set. Compared: reported type list, Truncated, no spurious decode error, and every exported field plus method results (payload, next type, flows, rendering) of each reported preallocated object against the packet's layer. Stale state: every ordered pair of unmodified seeds decoded into the same objects vs fresh objects.",
